@@ -1872,3 +1872,83 @@ Proof.
   intros Hall. pose proof (hooks_sigusr1_exactly_current names0 cs Hall) as E. simpl in E.
   rewrite E in Hp. apply in_map_iff in Hp. destruct Hp as (x & <- & _). reflexivity.
 Qed.
+
+(* ====================================================================================== *)
+(* generations: who may accept, and nothing of a replaced generation accepts again *)
+Lemma accept_only_by_live s k i s' :
+  reachable s -> step s (LAccept k i) = Some s' ->
+  exists c, nth_error (conns s) k = Some c /\ cst c = CQueued /\ In (caddr c) (addrs_of s i) /\
+            (i = cur s \/ pending s = Some i /\ fate_of s i = 0).
+Proof.
+  intros Hr Hs. simpl in Hs. destruct (nth_error (conns s) k) as [c|] eqn:En; [|discriminate].
+  destruct (cst c) eqn:Ec; try discriminate.
+  destruct (mem i (acc s (caddr c))) eqn:Em; [|discriminate].
+  apply mem_In in Em. destruct (only_live_instances_accept s (caddr c) i Hr Em) as (_ & Ha & Hl).
+  exists c. auto.
+Qed.
+
+Lemma no_answer_after_stop_refuted :
+  exists s k c i s', reachable s /\ rst s = RIdle /\ nth_error (conns s) k = Some c /\ cst c = CAccepted i /\
+                     i <> cur s /\ acc s (caddr c) = [cur s] /\ step s (LAnswer k) = Some s'.
+Proof.
+  destruct (run (init [0; 1] [])
+            [LNew 0 0; LConnect 0; LAccept 0 0; LCall [0; 1] 0; LLoadOk; LCbOk; LDup; LDup; LAdv; LSpawn; LSpawn; LAdv;
+             LStopTimeout; LStop; LReturn]) as [s|] eqn:E; [|vm_compute in E; discriminate].
+  assert (Hr : reachable s). { exists [0; 1], []. eexists. split; [reflexivity|exact E]. }
+  vm_compute in E. injection E as E.
+  exists s, 0, {| caddr := 0; csite := 0; cborn := 0; cst := CAccepted 0 |}, 0.
+  eexists. split; [exact Hr|]. subst s. vm_compute. repeat split; try reflexivity. discriminate.
+Qed.
+
+Lemma cur_stop_old s a : cur (stop_old s a) = cur s.
+Proof. unfold stop_old. destruct (isnil _); reflexivity. Qed.
+
+Lemma step_cur s l s' : step s l = Some s' -> cur s' = cur s \/ (l = LReturn /\ pending s = Some (cur s')).
+Proof.
+  destruct l; simpl; intros H;
+  repeat match type of H with
+         | context [match ?x with _ => _ end] => destruct x eqn:?; try discriminate
+         | context [if ?x then _ else _] => destruct x eqn:?; try discriminate
+         end;
+  injection H as <-; simpl; try rewrite cur_stop_old; auto.
+  right. split; [reflexivity|]. unfold pending. rewrite Heqr. reflexivity.
+Qed.
+
+Lemma cur_monotone ls : forall s s', reachable s -> run s ls = Some s' -> cur s <= cur s'.
+Proof.
+  induction ls as [|l r IH]; intros s s' Hr H; simpl in H.
+  - injection H as <-. apply le_n.
+  - destruct (step s l) as [s1|] eqn:E; [|discriminate].
+    assert (Hr1 := reachable_step _ _ _ Hr E). specialize (IH _ _ Hr1 H).
+    destruct (step_cur _ _ _ E) as [Hc|(_ & Hp)].
+    + rewrite <- Hc. exact IH.
+    + destruct (pending_new_ok s _ (inv_reachable _ Hr) Hp) as (_ & Hlt).
+      apply Nat.le_trans with (cur s1); [apply Nat.lt_le_incl; exact Hlt|exact IH].
+Qed.
+
+(* a generation that has been replaced never accepts again, whatever happens later *)
+Lemma stopped_never_accepts_again s i ls s' a :
+  reachable s -> i < cur s -> run s ls = Some s' -> ~ In i (acc s' a) /\ ~ In i (fdh s' a).
+Proof.
+  intros Hr Hlt Hrun. assert (Hr' := reachable_run _ _ _ Hr Hrun).
+  assert (Hle := cur_monotone _ _ _ Hr Hrun).
+  assert (Hnot : ~ (i = cur s' \/ pending s' = Some i)).
+  { intros [E|E]; [subst i; apply (Nat.lt_irrefl (cur s')); apply Nat.lt_le_trans with (cur s); assumption|].
+    destruct (pending_new_ok s' _ (inv_reachable _ Hr') E) as (_ & Hc).
+    apply (Nat.lt_irrefl i). apply Nat.lt_le_trans with (cur s); [exact Hlt|].
+    apply Nat.le_trans with (cur s'); [exact Hle|apply Nat.lt_le_incl; exact Hc]. }
+  split.
+  - intros Hin. destruct (only_live_instances_accept s' a i Hr' Hin) as (_ & _ & [E|(E & _)]); apply Hnot; auto.
+  - intros Hin. destruct (i_fd _ (inv_reachable _ Hr') a i Hin) as [(E & _)|(E & _)]; apply Hnot; auto.
+Qed.
+
+Lemma no_answer_after_stop_partial s i ls s' a k c :
+  reachable s -> i < cur s -> run s ls = Some s' ->
+  (~ In i (acc s' a) /\ ~ In i (fdh s' a)) /\
+  (nth_error (conns s') k = Some c -> accepted_by (cst c) = Some i ->
+   cborn c <= i /\ In (caddr c) (addrs_of s' i)).
+Proof.
+  intros Hr Hlt Hrun. split; [apply (stopped_never_accepts_again s i ls s' a Hr Hlt Hrun)|].
+  intros Hn Ha. destruct (accepted_by_current_or_later s' k c i (reachable_run _ _ _ Hr Hrun) Hn Ha) as (H1 & _ & H3).
+  auto.
+Qed.
